@@ -59,40 +59,44 @@ def run(ctx):
                             ctx.alarm('correspondence', 'gerchberg_saxton reconstruction differs from the model forward of the returned hologram by %.3g (%s)'
                                       % (W.maxdiff(rn, mo), rec))
     # ---------------- torch stochastic gradient descent (pad-then-crop propagation)
+    sgd_methods = (('Bandlimited Angular Spectrum', 'bl', 2), ('Angular Spectrum', 'as', 0), ('Transfer Function Fresnel', 'tf', 1))
     for (h, w) in shapes:
         for z in (rng.uniform(0.5, 5), -rng.uniform(0.5, 5)):
-            if ctx.quick and rng.random() < 0.5:
-                continue
-            n_it = rng.choice([1, 2, 3])
-            torch.manual_seed(rng.randrange(10 ** 6))
-            target = torch.rand(h, w)
-            rec = {'routine': 'stochastic_gradient_descent', 'h': h, 'w': w, 'iterations': n_it, 'distance': z}
-            ctx.case(('sgd', h, w, n_it, round(z, 6)), True, rec if len(ctx.samples) < 5 else None)
-            ctx.count('sgd/%s' % ('odd' if (h % 2 or w % 2) else 'even'))
-            try:
-                holo, recon = LW.stochastic_gradient_descent(target, lam, z, dx, propagation_type='Bandlimited Angular Spectrum', n_iteration=n_it)
-            except Exception as e:
-                ctx.violation('stochastic_gradient_descent raised %r' % e, rec, {'routine': 'stochastic_gradient_descent', 'what': 'raises'})
-                continue
-            hn, rn = holo.detach().numpy().astype(np.complex128), recon.detach().numpy().astype(np.complex128)
-            if hn.shape != (h, w) or rn.shape[-2:] != (h, w) or not (np.isfinite(hn).all() and np.isfinite(rn).all()):
-                ctx.violation('stochastic_gradient_descent: non-finite output or wrong resolution %s / %s' % (hn.shape, rn.shape), rec,
-                              {'routine': 'stochastic_gradient_descent', 'what': 'finite_shape', 'odd': bool(h % 2 or w % 2)})
-                continue
-            if np.max(np.abs(np.abs(hn) - 1)) > 1e-5:
-                ctx.violation('stochastic_gradient_descent: the returned phase-only hologram does not have unit amplitude', rec,
-                              {'routine': 'stochastic_gradient_descent', 'what': 'unit_amplitude'})
-            again = W.impl('torch', 'bl', hn.astype(np.complex64), dx, lam, z, zero_padding=(True, False, True))
-            scale = max(1.0, float(np.max(np.abs(again))))
-            if W.maxdiff(rn.reshape(h, w), again.reshape(h, w)) > 5e-4 * scale:
-                ctx.violation('stochastic_gradient_descent: the returned reconstruction is not the propagation of the returned hologram', rec,
-                              {'routine': 'stochastic_gradient_descent', 'what': 'reconstruction'})
-            if ctx.drv_ok and W.bl_margin_ok(2 * h, 2 * w, dx, lam, z, 'torch'):
-                line = 't_pc 2 %d %d %d %d %d %s' % (h, w, f2b(dx), f2b(lam), f2b(z), W.enc_field(hn))
-                mo = W.dec_field(ctx.model.ask([line])[0], h, w)
-                if W.maxdiff(rn.reshape(h, w), mo) > 1e-3 * scale:
-                    ctx.alarm('correspondence', 'SGD reconstruction differs from the model (pad, band-limited AS, crop) of the returned hologram by %.3g (%s)'
-                              % (W.maxdiff(rn.reshape(h, w), mo), rec))
+            # every advertised propagation type: the loop and the final reconstruction must use the one the caller asked for
+            for (name, short, mi) in sgd_methods:
+                if ctx.quick and rng.random() < 0.6:
+                    continue
+                n_it = rng.choice([1, 2, 3])
+                torch.manual_seed(rng.randrange(10 ** 6))
+                target = torch.rand(h, w)
+                rec = {'routine': 'stochastic_gradient_descent', 'h': h, 'w': w, 'iterations': n_it, 'distance': z, 'method': name}
+                ctx.case(('sgd', h, w, n_it, round(z, 6), name), True, rec if len(ctx.samples) < 5 else None)
+                ctx.count('sgd/%s/%s' % (short, 'odd' if (h % 2 or w % 2) else 'even'))
+                try:
+                    holo, recon = LW.stochastic_gradient_descent(target, lam, z, dx, propagation_type=name, n_iteration=n_it)
+                except Exception as e:
+                    ctx.violation('stochastic_gradient_descent raised %r' % e, rec, {'routine': 'stochastic_gradient_descent', 'what': 'raises'})
+                    continue
+                hn, rn = holo.detach().numpy().astype(np.complex128), recon.detach().numpy().astype(np.complex128)
+                if hn.shape != (h, w) or rn.shape[-2:] != (h, w) or not (np.isfinite(hn).all() and np.isfinite(rn).all()):
+                    ctx.violation('stochastic_gradient_descent: non-finite output or wrong resolution %s / %s' % (hn.shape, rn.shape), rec,
+                                  {'routine': 'stochastic_gradient_descent', 'what': 'finite_shape', 'odd': bool(h % 2 or w % 2)})
+                    continue
+                if np.max(np.abs(np.abs(hn) - 1)) > 1e-5:
+                    ctx.violation('stochastic_gradient_descent: the returned phase-only hologram does not have unit amplitude', rec,
+                                  {'routine': 'stochastic_gradient_descent', 'what': 'unit_amplitude'})
+                again = W.impl('torch', short, hn.astype(np.complex64), dx, lam, z, zero_padding=(True, False, True))
+                scale = max(1.0, float(np.max(np.abs(again))))
+                if W.maxdiff(rn.reshape(h, w), again.reshape(h, w)) > 5e-4 * scale:
+                    ctx.violation('stochastic_gradient_descent(%s): the returned reconstruction is not the propagation of the returned hologram '
+                                  'with the requested method (diff %.3g)' % (name, W.maxdiff(rn.reshape(h, w), again.reshape(h, w))), rec,
+                                  {'routine': 'stochastic_gradient_descent', 'what': 'reconstruction'})
+                if ctx.drv_ok and (short != 'bl' or W.bl_margin_ok(2 * h, 2 * w, dx, lam, z, 'torch')):
+                    line = 't_pc %d %d %d %d %d %d %s' % (mi, h, w, f2b(dx), f2b(lam), f2b(z), W.enc_field(hn))
+                    mo = W.dec_field(ctx.model.ask([line])[0], h, w)
+                    if W.maxdiff(rn.reshape(h, w), mo) > 1e-3 * scale:
+                        ctx.alarm('correspondence', 'SGD reconstruction differs from the model (pad, %s, crop) of the returned hologram by %.3g (%s)'
+                                  % (name, W.maxdiff(rn.reshape(h, w), mo), rec))
     # ---------------- NumPy Gerchberg-Saxton
     for (h, w) in shapes:
         for z in (rng.uniform(0.5, 3), -rng.uniform(0.5, 3)):
